@@ -64,4 +64,8 @@ pub mod io_nostd;
 #[cfg(not(feature = "std"))]
 pub use io_nostd as io;
 
+/// Verification hooks: pass-through wrappers around crate-private pure functions, only with `--cfg zstd_rs_verif`.
+#[cfg(zstd_rs_verif)]
+pub mod verif;
+
 mod tests;
